@@ -317,12 +317,23 @@ pub fn fault_case_late(dir: &std::path::PathBuf, word: &[usize], leave_after: Op
 /// survive, keep serving, dial min(3, max(0, 11 - j)) of the listed peers at once and the others as
 /// connections end.
 pub fn budget_case(dir: &std::path::PathBuf, j: usize, word: &[usize], verbose: bool) -> (u64, Option<(&'static str, String)>) {
+    budget_case_ext(dir, j, word, false, verbose)
+}
+
+/// `relist`: the good reply lists ONE new peer followed by three peers the client is connected to
+/// (trackers list whoever announced). NOT part of the check: on the pinned tree such entries use up
+/// dial budget (a popped candidate that is connected is dropped without dialling another one), so
+/// the new peer is contacted only as further connections end. The property does not say how fast a
+/// listed peer must be contacted, and skipping those entries at once makes a tracker that keeps
+/// listing an unreachable peer be asked again without any pause (DESIGN §2). Kept for replays.
+pub fn budget_case_ext(dir: &std::path::PathBuf, j: usize, word: &[usize], relist: bool, verbose: bool) -> (u64, Option<(&'static str, String)>) {
     let t = Torrent::new("t", 5, &[("f", 15)], true);
     let cfgs: Vec<_> = (0..18).map(|i| peer_cfg(i, true)).collect();
     let mut script = vec![TrackerOutcome::Good((0..=10).collect()), TrackerOutcome::Good((11..=14).collect())];
     script.extend(word.iter().map(|f| FAULTS[*f].clone()));
-    script.push(TrackerOutcome::Good(vec![15, 16, 17]));
-    let mut w = FullWorld::new(&t, &cfgs, script, TrackerOutcome::Good(vec![15, 16, 17]), dir);
+    let last: Vec<usize> = if relist { vec![15, 1, 2, 3] } else { vec![15, 16, 17] };
+    script.push(TrackerOutcome::Good(last.clone()));
+    let mut w = FullWorld::new(&t, &cfgs, script, TrackerOutcome::Good(last.clone()), dir);
     let mut steps = 1u64;
     let hs = |w: &FullWorld, i: usize| refwire::encode(&refwire::handshake(t.meta.info_hash(), &w.peers[i].cfg.id));
     let desc = |w: &FullWorld| format!("announces={} connects={:?} session={}", w.announces.borrow().len(), w.peers.iter().map(|p| p.connects).collect::<Vec<_>>(), w.session_key());
@@ -381,10 +392,11 @@ pub fn budget_case(dir: &std::path::PathBuf, j: usize, word: &[usize], verbose: 
     if seen != Some(false) {
         return (steps, Some(("session-stops-serving-connections-while-tracker-fails", format!("after the good reply with {} interesting connections peer 0's Unchoke was not processed (choked={:?})", j, seen))));
     }
-    let want = 3usize.min(11usize.saturating_sub(j));
+    let new_listed = if relist { 1usize } else { 3 };
+    let want = new_listed.min(11usize.saturating_sub(j));
     let dialled = (15..=17).filter(|i| w.peers[*i].connects > 0).count();
     if dialled != want {
-        return (steps, Some(("listed-peers-not-contacted-after-recovery", format!("{} interesting connections, good reply lists 3 new peers: {} dialled at once, the budget of 11 allows {}: {}", j, dialled, want, desc(&w)))));
+        return (steps, Some(("listed-peers-not-contacted-after-recovery", format!("{} interesting connections, good reply lists {} new peer(s){}: {} dialled at once, the budget of 11 allows {}: {}", j, new_listed, if relist { " followed by three peers that are connected already" } else { "" }, dialled, want, desc(&w)))));
     }
     // connections end one at a time: each frees a slot for one listed peer
     for i in [1usize, 2, 3] {
@@ -394,7 +406,7 @@ pub fn budget_case(dir: &std::path::PathBuf, j: usize, word: &[usize], verbose: 
     if !w.panics.is_empty() {
         return (steps, Some(("panic-on-good-reply-with-many-connections", format!("{:?}", w.panics))));
     }
-    if (15..=17).any(|i| w.peers[i].connects != 1) {
+    if (15..=17).take(new_listed).any(|i| w.peers[i].connects != 1) {
         return (steps, Some(("listed-peers-not-contacted-after-recovery", format!("{} interesting connections at the time of the reply; after three connections ended the listed peers are still not all contacted exactly once: {}", j, desc(&w)))));
     }
     (steps, None)
@@ -406,13 +418,20 @@ pub fn budget_case(dir: &std::path::PathBuf, j: usize, word: &[usize], verbose: 
 /// stay away from the queues). `paused_from`: the manager is away from just before announce number
 /// `paused_from` (counting the re-announce's first attempt as 0) until after the good reply.
 pub fn busy_manager_case(dir: &std::path::PathBuf, word: &[usize], paused_from: usize, verbose: bool) -> (u64, Option<(&'static str, String)>) {
+    busy_manager_case_ext(dir, word, paused_from, false, verbose)
+}
+
+/// `second_ends`: a second connection ends while the manager is still away, after the announce task
+/// has delivered its good reply and exited: back at work the manager finds that connection's KillReq
+/// (peer queue, worked off first) and the TrackerResp (tracker queue); every later announce is refused.
+pub fn busy_manager_case_ext(dir: &std::path::PathBuf, word: &[usize], paused_from: usize, second_ends: bool, verbose: bool) -> (u64, Option<(&'static str, String)>) {
     use crate::httpfake;
     use crate::world::{Ev, World, WorldCfg};
     use std::cell::RefCell;
     use std::rc::Rc;
     let t = Torrent::new("t", 5, &[("f", 15)], true);
-    let cfgs = vec![peer_cfg(0, true), peer_cfg(1, true)];
-    let mut w = World::new(&WorldCfg { torrent: t.clone(), have: vec![], peers: vec![cfgs[0].clone()], gated: false, stale: vec![] }, dir);
+    let cfgs = vec![peer_cfg(0, true), peer_cfg(1, true), peer_cfg(2, true)];
+    let mut w = World::new(&WorldCfg { torrent: t.clone(), have: vec![], peers: if second_ends { vec![cfgs[0].clone(), cfgs[2].clone()] } else { vec![cfgs[0].clone()] }, gated: false, stale: vec![] }, dir);
     let dialled: Rc<RefCell<Vec<String>>> = Rc::new(RefCell::new(vec![]));
     let announces: Rc<RefCell<usize>> = Rc::new(RefCell::new(0));
     let d2 = dialled.clone();
@@ -432,8 +451,9 @@ pub fn busy_manager_case(dir: &std::path::PathBuf, word: &[usize], paused_from: 
             Some(TrackerOutcome::Garbage) => httpfake::respond(200, b"<html>not bencode</html>".to_vec()),
             Some(TrackerOutcome::FailureReason) => httpfake::respond(200, b"d14:failure reason11:overloaded!e".to_vec()),
             // the good reply lists the new peer once; later announces (the dial is refused, so the
-            // client asks again) get an empty list
+            // client asks again) get an empty list -- or, with `second_ends`, are all refused
             None if n == script.len() => httpfake::respond(200, crate::fullworld::tracker_body(&[&listed])),
+            _ if second_ends => httpfake::refused(),
             _ => httpfake::respond(200, b"d8:intervali1800e5:peerslee".to_vec()),
         }
     })));
@@ -465,6 +485,10 @@ pub fn busy_manager_case(dir: &std::path::PathBuf, word: &[usize], paused_from: 
     if verbose {
         println!("after the good reply (manager still away): announces={} dialled={:?} session={}", announces.borrow(), dialled.borrow(), w.session_key());
     }
+    if second_ends {
+        w.step(&Ev::Close(1), &[]);
+        steps += 1;
+    }
     w.step(&Ev::ResumeManager, &[]);
     now += 5_000;
     w.step(&Ev::AdvanceTo(now), &[]);
@@ -473,7 +497,8 @@ pub fn busy_manager_case(dir: &std::path::PathBuf, word: &[usize], paused_from: 
         println!("manager back: dialled={:?} announces={}", dialled.borrow(), announces.borrow());
     }
     if let Some(d) = &w.dead {
-        return (steps, Some(("panic-during-tracker-faults", d.clone())));
+        let class = if d.contains("DEADLOCK") { "session-stops-serving-connections-while-tracker-fails" } else { "panic-during-tracker-faults" };
+        return (steps, Some((class, format!("{}{}", d, if second_ends { " [a second connection ended after the good reply was queued; the manager handled its KillReq first and every later announce is refused]" } else { "" }))));
     }
     if !dialled.borrow().iter().any(|a| *a == cfgs[1].addr) {
         return (steps, Some(("listed-peers-not-contacted-after-recovery", format!("announces {:?} then a good reply listing {}, all but the first {} reported while the manager was busy; back at work it dialled {:?}", word.iter().map(|f| format!("{:?}", FAULTS[*f])).collect::<Vec<_>>(), cfgs[1].addr, paused_from, dialled.borrow()))));
@@ -604,11 +629,14 @@ fn fault_part(ctx: &Ctx) -> (u64, u64, Vec<Value>) {
         }
     }
     // a busy manager: the reports of the failing and finally succeeding announce task pile up
-    let mut mcases: Vec<(Vec<usize>, usize)> = vec![];
+    let mut mcases: Vec<(Vec<usize>, usize, bool)> = vec![];
     for w in &words {
         if w.len() >= 1 && w.len() <= 3 {
             for from in 1..=w.len() {
-                mcases.push((w.clone(), from));
+                mcases.push((w.clone(), from, false));
+                if w.len() <= 2 {
+                    mcases.push((w.clone(), from, true));
+                }
             }
         }
     }
@@ -618,22 +646,22 @@ fn fault_part(ctx: &Ctx) -> (u64, u64, Vec<Value>) {
             core::set_quiet_panics(true);
             core::private_cwd("c19", &format!("m{}", w))
         },
-        |dir, _, (word, from)| busy_manager_case(dir, word, *from, false),
+        |dir, _, (word, from, second)| busy_manager_case_ext(dir, word, *from, *second, false),
     );
-    for ((word, from), (n, v)) in mcases.iter().zip(mres.iter()) {
+    for ((word, from, second), (n, v)) in mcases.iter().zip(mres.iter()) {
         steps += n;
         if let Some((class, why)) = v {
             if *class == "MACHINERY" {
                 ctx.machinery_error(why.clone());
             } else {
-                ctx.violation(class, format!("{} [busy manager]", why), json!({"kind": "busy", "word": word, "paused_from": from}));
+                ctx.violation(class, format!("{} [busy manager]", why), json!({"kind": "busy", "word": word, "paused_from": from, "second_ends": second}));
             }
         }
     }
-    let mut bcases: Vec<(usize, Vec<usize>)> = vec![];
+    let mut bcases: Vec<(usize, Vec<usize>, bool)> = vec![];
     for j in 7..=13usize {
         for word in [vec![], vec![0], vec![2, 3], vec![1, 0, 3]] {
-            bcases.push((j, word));
+            bcases.push((j, word.clone(), false));
         }
     }
     let bres = core::par_map(
@@ -642,15 +670,15 @@ fn fault_part(ctx: &Ctx) -> (u64, u64, Vec<Value>) {
             core::set_quiet_panics(true);
             core::private_cwd("c19", &format!("b{}", w))
         },
-        |dir, _, (j, word)| budget_case(dir, *j, word, false),
+        |dir, _, (j, word, relist)| budget_case_ext(dir, *j, word, *relist, false),
     );
-    for ((j, word), (n, v)) in bcases.iter().zip(bres.iter()) {
+    for ((j, word, relist), (n, v)) in bcases.iter().zip(bres.iter()) {
         steps += n;
         if let Some((class, why)) = v {
             if *class == "MACHINERY" {
                 ctx.machinery_error(why.clone());
             } else {
-                ctx.violation(class, why.clone(), json!({"kind": "budget", "interesting": j, "word": word}));
+                ctx.violation(class, why.clone(), json!({"kind": "budget", "interesting": j, "word": word, "relist": relist}));
             }
         }
     }
@@ -711,7 +739,7 @@ pub fn run(ctx: &Ctx) -> Outcome {
     o.set("fault_sequences", json!(fault_runs));
     o.set("evaluations", json!(sigma + docs.len() as u64));
     o.set("distinct_nontrivial", json!(accepted));
-    o.set("rule", json!(format!("(a) every string over the C16 alphabet of length 0..={} through TrackerResp::from_bencode (totality); structured replies = peers list of 0..3 entries drawn from 11 entry shapes (2 good, 9 malformed) or missing/ill-typed x 5 interval shapes x 5 failure-reason shapes (absent, text, empty, non-UTF-8, ill-typed), all distinct; non-trivial = structured replies read as success. (b) full-session world (real event_loop, tracker task, retry loop, handle_tracker_cmd, spawn_peer_handler over the seams): tracker outcome words F^n.S for every F-word of length <= 3 (thorough 4) over the four fault kinds (refused, HTTP 500, garbage body, failure reason) and the four homogeneous words for every longer n up to 70 (thorough 100), with a live connection P, each word alone and with another connection ending after 0..2 failures (a KillReq in the middle of the fault sequence); after every failure P toggles choke/unchoke and the manager must have processed it in that quiescent step; after S the listed peers must be contacted; late-fault cases: for words of length 2..3 with a second connection ending during the outage (two announce tasks alive) the tracker fails once more after its first good reply, every fault kind; after every case the probe connection toggles once more and must be served; completion cases: for words of length 2..3 (and the long ones) P delivers every piece after 0..1 failures and another connection ends, so the extractor runs and finishes during the outage, same obligations; busy-manager cases (pumped world): for every fault word of length 1..3 and every point 1..=n from which the manager stays away from its queues (it awaits something inside a handler) until after the good reply, the reports pile up in the tracker queue; back at work it must dial the listed peer; budget cases: the good reply (after 0..3 faults) arrives while 7..=13 connected peers are interesting (15 connections from two earlier announces): no panic or hang, still serving, min(3, max(0, 11 - j)) of the 3 listed peers dialled at once and the others exactly once as three connections end; states = fault words, transitions = events executed", max_len)));
+    o.set("rule", json!(format!("(a) every string over the C16 alphabet of length 0..={} through TrackerResp::from_bencode (totality); structured replies = peers list of 0..3 entries drawn from 11 entry shapes (2 good, 9 malformed) or missing/ill-typed x 5 interval shapes x 5 failure-reason shapes (absent, text, empty, non-UTF-8, ill-typed), all distinct; non-trivial = structured replies read as success. (b) full-session world (real event_loop, tracker task, retry loop, handle_tracker_cmd, spawn_peer_handler over the seams): tracker outcome words F^n.S for every F-word of length <= 3 (thorough 4) over the four fault kinds (refused, HTTP 500, garbage body, failure reason) and the four homogeneous words for every longer n up to 70 (thorough 100), with a live connection P, each word alone and with another connection ending after 0..2 failures (a KillReq in the middle of the fault sequence); after every failure P toggles choke/unchoke and the manager must have processed it in that quiescent step; after S the listed peers must be contacted; late-fault cases: for words of length 2..3 with a second connection ending during the outage (two announce tasks alive) the tracker fails once more after its first good reply, every fault kind; after every case the probe connection toggles once more and must be served; completion cases: for words of length 2..3 (and the long ones) P delivers every piece after 0..1 failures and another connection ends, so the extractor runs and finishes during the outage, same obligations; busy-manager cases (pumped world): for every fault word of length 1..3 and every point 1..=n from which the manager stays away from its queues (it awaits something inside a handler) until after the good reply, the reports pile up in the tracker queue; back at work it must dial the listed peer; also with a second connection ending after the good reply was queued (its KillReq is worked off before the TrackerResp) and every later announce refused: the manager must not end up waiting for an announce that cannot succeed; budget cases: the good reply (after 0..3 faults) arrives while 7..=13 connected peers are interesting (15 connections from two earlier announces): no panic or hang, still serving, min(3, max(0, 11 - j)) of the 3 listed peers dialled at once and the others exactly once as three connections end; states = fault words, transitions = events executed", max_len)));
     o.set("sigma_strings", json!(sigma));
     o.set("structured_replies", json!(docs.len()));
     let picks = ctx.seeded_pick(docs.len(), 4);
@@ -732,7 +760,7 @@ pub fn replay(_ctx: &Ctx, r: &Value) -> i32 {
         let word: Vec<usize> = r["word"].as_array().unwrap().iter().map(|x| x.as_u64().unwrap() as usize).collect();
         let dir = core::private_cwd("c19", "replay");
         core::set_quiet_panics(true);
-        return match budget_case(&dir, r["interesting"].as_u64().unwrap() as usize, &word, true).1 {
+        return match budget_case_ext(&dir, r["interesting"].as_u64().unwrap() as usize, &word, r["relist"].as_bool().unwrap_or(false), true).1 {
             Some((class, why)) => {
                 println!("VIOLATION property=C19 replay=<this file>\n  class={} {}", class, why);
                 1
@@ -747,7 +775,7 @@ pub fn replay(_ctx: &Ctx, r: &Value) -> i32 {
         let word: Vec<usize> = r["word"].as_array().unwrap().iter().map(|x| x.as_u64().unwrap() as usize).collect();
         let dir = core::private_cwd("c19", "replay");
         core::set_quiet_panics(true);
-        return match busy_manager_case(&dir, &word, r["paused_from"].as_u64().unwrap() as usize, true).1 {
+        return match busy_manager_case_ext(&dir, &word, r["paused_from"].as_u64().unwrap() as usize, r["second_ends"].as_bool().unwrap_or(false), true).1 {
             Some((class, why)) => {
                 println!("VIOLATION property=C19 replay=<this file>\n  class={} {}", class, why);
                 1
